@@ -1,15 +1,16 @@
 -------------------------------- MODULE MC_Fuzz --------------------------------
 (***************************************************************************)
 (* C17: the input space of the decoders - ALL strings up to a length over  *)
-(* a 10-symbol alphabet chosen to reach every branch of the combinators,   *)
+(* a 12-symbol alphabet chosen to reach every branch of the combinators,   *)
 (* presented with every declared board size.  Symbols are exported by      *)
-(* index; harness/fuzz.py maps  0..10  to   0 1 5 f g z - + . /  and one   *)
-(* non-ASCII decimal digit (U+0663).  The judge is Trace_Fuzz.             *)
+(* index; harness/fuzz.py maps  0..11  to   0 1 5 f g z - + . /  , one      *)
+(* non-ASCII decimal digit (U+0663) and the upper-case hex digit A.        *)
+(* The judge is Trace_Fuzz.                                                *)
 (***************************************************************************)
 EXTENDS Integers, Sequences, Json, TLC, TLCExt, IOUtils
 
 MaxLen == atoi(IOEnv.MAXLEN)
-NSym == 11
+NSym == 12
 VARIABLES shard, s, done
 Init == shard \in 0 .. NSym - 1 /\ s = <<>> /\ done = FALSE
 (* breadth-first growth of the strings; each state is one string (the first symbol is the shard) *)
